@@ -384,6 +384,15 @@ impl TryFrom<&mut Peekable<Lexer>> for ParserNode {
                         Type::UpperArith(inst) => {
                             let rd = lex.get_reg()?;
                             let mut imm = lex.get_imm()?;
+                            // The operand is the 20-bit field of the instruction
+                            // (written as an unsigned or as a sign-extended value):
+                            // a number that does not fit is not silently cut down.
+                            if !(-(1 << 19)..(1 << 20)).contains(&imm.get().value()) {
+                                return Err(LexError::Expected(
+                                    vec![ExpectedType::Imm],
+                                    Box::new(imm.token().clone()),
+                                ));
+                            }
                             let new_imm = Imm::new(imm.get().value() << 12);
                             // shift left by 12
                             *imm.get_mut() = new_imm;
